@@ -8,6 +8,21 @@ BAD_SOURCES = ["lambda x: (", "def f(x) return x", "not a function", "lambda : :
                "x = 3"]
 
 
+def _first_without_mro(spaces):
+    for u in spaces:
+        try:
+            rm.mro(u)
+        except rm.NoMRO:
+            return u
+    return None
+
+
+def _tree(s):
+    yield s
+    for c in s.spaces.values():
+        yield from _tree(c)
+
+
 def candidates(mach):
     """All hostile operations applicable to the current state (a list of ops)."""
     m = mach.ref
@@ -123,6 +138,53 @@ def candidates(mach):
             if broken is not None:
                 depth = 0 if broken is s else (1 if s in broken.bases else 2)
                 out.append({"op": "add_bases", "space": p, "bases": [t.path()], "why": "no-mro-depth%d" % depth})
+        # remove_bases / deletion after which a sub space - direct or further down - has no C3 linearisation any more
+        for b in list(s.bases):
+            i = s.bases.index(b)
+            s.bases.remove(b)
+            try:
+                broken = _first_without_mro(spaces)
+            finally:
+                s.bases.insert(i, b)
+            if broken is not None:
+                out.append({"op": "remove_bases", "space": p, "bases": [b.path()], "why": "remove-base-no-mro"})
+        tree = set(_tree(s))
+        saved = {}
+        for u in spaces:
+            if u not in tree and any(b in tree for b in u.bases):
+                saved[u] = list(u.bases)
+                u.bases[:] = [b for b in u.bases if b not in tree]
+        try:
+            broken = _first_without_mro([u for u in spaces if u not in tree]) if saved else None
+        finally:
+            for u, bs in saved.items():
+                u.bases[:] = bs
+        if broken is not None and mach.deletable(s):
+            out.append({"op": "del_space", "space": p, "how": "delattr", "why": "del-space-no-mro"})
+        # a 'relative' reference to a space outside the tree, while a sub space would have to re-bind it: as a new name and
+        # as a change of an existing one
+        if isinstance(s.parent, rm.RModel):
+            subs = []
+            for u in spaces:
+                try:
+                    if u is not s and s in rm.mro(u)[1:]:
+                        subs.append(u)
+                except rm.NoMRO:
+                    pass
+            outside = [z for z in spaces if isinstance(z.parent, rm.RModel) and z is not s]
+            if subs and outside:
+                z = outside[len(out) % len(outside)]
+                used = set(dr) | set(dc) | set(s.spaces)
+                for u in subs:
+                    used |= set(gen.visible_cells(u)) | set(u.spaces) | set(u.refs)
+                if "zr" not in used and "zr" not in m.refs:
+                    out.append({"op": "set_ref", "space": p, "name": "zr", "value": {"t": "obj", "space": z.path()}, "mode": "relative",
+                                "why": "relref-outside-new"})
+                for n in sorted(s.refs):
+                    if all(n not in u.refs for u in spaces if u is not s) and all(n not in gen.visible_cells(u) for u in subs):
+                        out.append({"op": "set_ref", "space": p, "name": n, "value": {"t": "obj", "space": z.path()}, "mode": "relative",
+                                    "why": "relref-outside-change"})
+                        break
         sibs = [x for x in s.parent.spaces if x != s.name]
         others = sibs + (list(s.parent.refs) if hasattr(s.parent, "refs") else [])
         if others:
